@@ -16,7 +16,7 @@ CHECKS = {
  "C05": dict(engine="priority-engine", cat="model_checking", design="§5 C05, §4.2",
    text="Saturated configurations of the specification (infinite supply): TLC enumerates every release order and grouping and checks the share invariants; every cover path is replayed with inputs topped up before each scheduler step and stalled; Mon_Prio decides per-priority in-flight <= share and exact shares at the stall point. v1: gated saturated recorder (inputs filled before New and topped up before every scheduler step, gated stall), traces validated against PrioV1, shares from the real v1 divider. Apalache: ShareInd.tla proves out[p] <= strategic[p] inductive for every HandlersQuantity and every strategic division (3 priorities; twins must fail).",
    note="Trusted: TLC, synctest; share = real divider(all priorities, H). Bounded configurations.",
-   technique="TLA+ saturated spec + TLC; gated replay with stall continuation; TLC monitor"),
+   technique="TLA+ saturated spec + TLC; gated replay with stall continuation; TLC monitor; Apalache inductive invariant on the counter abstraction ShareInd"),
  "C06": dict(engine="priority-engine", cat="model_checking", design="§5 C06, §4.2",
    text="TLC liveness (every written item eventually received; termination) under weak/strong fairness with a vacuity twin; safety form NoIdleBlock; on the real code every cover path is continued into the alone-scenario (nothing in flight, one priority has data, nothing released => all H handlers) and drained under a virtual deadline; Mon_Prio decides.",
    note="Trusted: TLC liveness checking, synctest virtual time (eventually = within a virtual deadline with the step enabled).",
@@ -61,7 +61,7 @@ CHECKS = {
 
 def _join(prop_text, note="Trusted: TLC, Go testing/synctest virtual clock; bounded configurations (JoinSize 1..3, few elements) exhaustively, larger ones by seeded schedules."):
     return dict(engine="join-engine", cat="model_checking", design="§5, §4.3", text=prop_text, note=note,
-                technique="explicit-time TLA+ spec + TLC; lock-step traces of the real code validated by TLC (Trace_Join/Trace_Unite) and judged by the TLA+ monitor Mon_Join")
+                technique="explicit-time TLA+ spec + TLC; lock-step traces of the real code validated by TLC (Trace_Join/Trace_Unite) and judged by the TLA+ monitors Mon_Join / Mon_JoinShared / Mon_JoinHold; Apalache inductive invariants on the counter abstractions JoinInd / UniteInd")
 
 CHECKS.update({
  "C03": _join("TLC checks the concatenation/size invariants (ghost viol set inside the send action) of the explicit-time Join/Unite specifications in the free, urgent and ready regimes; TLC-enumerated and seeded timed schedules are replayed lock-step into the real v2 join, v2 unite and v1 join (copy and no-copy) in synctest bubbles; every recorded trace is validated against the trace specification (conformance) and judged by Mon_Join: concatenation of received slices = written sequence, no empty slice, size rules."),
@@ -74,7 +74,7 @@ CHECKS.update({
 def _limit(prop_text):
     return dict(engine="limit-engine", cat="model_checking", design="§5, §4.4", text=prop_text,
                 note="Trusted: TLC, synctest virtual clock (time.Sleep never returns early on a real clock, so exact virtual sleeps are the worst case for C04).",
-                technique="explicit-time TLA+ spec + TLC (incl. edge cover of the state graph as schedules); lock-step traces validated by TLC (Trace_Limit) and judged by the TLA+ monitor Mon_Limit")
+                technique="explicit-time TLA+ spec + TLC (incl. edge cover of the state graph as schedules); lock-step traces validated by TLC (Trace_Limit) and judged by the TLA+ monitors Mon_Limit / Mon_LimitShared; Apalache inductive invariant on the counter abstraction LimitInd (C04)")
 
 CHECKS.update({
  "C04": _limit("TLC checks the structural invariants (batch starts >= Interval apart, <= Quantity per batch) and, in a tiny configuration with the full emission history, the cumulative and pairwise window formulas; several disciplines fed from ONE input channel judged by Mon_LimitShared (each its own bound); Apalache: LimitInd.tla proves the cumulative bound and the spacing of batch starts inductive for every Quantity, Interval and instant (twins mirroring seeded changes must fail); an edge cover of the state graph plus seeded profiles (prefilled, trickle, stall-then-burst, slow consumer, 40+ intervals) are replayed lock-step into the real limit discipline; Mon_Limit applies the cumulative and the all-pairs window formula to the exact virtual emission instants."),
